@@ -55,6 +55,43 @@ type Stream struct {
 	ZeroReads int
 	MaxAsk    int // largest len(p)
 	Closed    int
+	Seeks     int // Seek calls (seekable wrapper only)
+	MaxPos    int // furthest position ever reached
+}
+
+// Pos is the current read position.
+func (s *Stream) Pos() int { return s.pos }
+
+// Remaining is the number of bytes not yet delivered (what a Len() method reports).
+func (s *Stream) Remaining() int { return len(s.Data) - s.pos }
+
+// Seek implements io.Seeker for the seekable reader wrapper. Seeking does not
+// deliver bytes; the harness looks at the final and the furthest position.
+func (s *Stream) Seek(off int64, whence int) (int64, error) {
+	s.Seeks++
+	var np int64
+	switch whence {
+	case io.SeekStart:
+		np = off
+	case io.SeekCurrent:
+		np = int64(s.pos) + off
+	case io.SeekEnd:
+		np = int64(len(s.Data)) + off
+	default:
+		return 0, errors.New("verifsim: invalid whence")
+	}
+	if np < 0 {
+		return 0, errors.New("verifsim: negative position")
+	}
+	if np > int64(len(s.Data)) {
+		np = int64(len(s.Data))
+	}
+	s.pos = int(np)
+	if s.pos > s.MaxPos {
+		s.MaxPos = s.pos
+	}
+	s.SawEOF = false
+	return np, nil
 }
 
 func (s *Stream) nextChunk(want int) int {
@@ -137,6 +174,9 @@ func (s *Stream) read(p []byte) (int, error) {
 	copy(p, s.Data[s.pos:s.pos+n])
 	s.pos += n
 	s.Handed += n
+	if s.pos > s.MaxPos {
+		s.MaxPos = s.pos
+	}
 	if s.D.Scribble {
 		for i := n; i < len(p); i++ {
 			p[i] = 0xA5 ^ byte(i)
